@@ -639,7 +639,7 @@ func dominates(a, b ssa.Instruction) bool {
 	if a.Block() == b.Block() {
 		return instrIndex(a) < instrIndex(b)
 	}
-	return a.Block().Dominates(b.Block())
+	return blockDominates(a.Block(), b.Block())
 }
 
 // reachFromBlock: the blocks reachable from b (b included).
